@@ -253,6 +253,19 @@ def main(argv=None):
           f'({len(obs)} solver queries, {len(run.scans)} scan), {ndis} discharged, '
           f'{len(known_lines)} known findings, {len(violations)} violations, {len(undecided)} undecided; '
           f'generate {t1 - t0:.1f}s solve {solve_s:.1f}s')
+    if tier == 'thorough' and not os.environ.get('VERIF_REPO'):
+        # deeper exploration: the same queries under other solver seeds, and the corpus of changes that must / must not be reported
+        flips = solve.rerun_with_seeds(obs, results, seeds=(1, 2))
+        run.notes.append(dict(solver_seed_reruns=dict(seeds=[1, 2], verdict_flips=flips)))
+        if flips: print(f'{prop} [thorough]: verdicts that depend on the solver seed: {flips[:5]}')
+        from . import thorough
+        mt = thorough.run_mutants(prop, REPO)
+        if mt is not None:
+            run.notes.append(dict(mutants=mt))
+            print(f"{prop} [thorough]: corpus of changes: {mt['breaking_changes']} property-breaking, {mt['reported']} reported"
+                  + (f", NOT reported: {[x['name'] for x in mt['not_reported']]}" if mt['not_reported'] else '')
+                  + f"; {mt['harmless_edits']} harmless edits, {mt['silent']} silent"
+                  + (f", FALSE ALARMS: {[x['name'] for x in mt['false_alarms']]}" if mt['false_alarms'] else ''))
     write_evidence(run, ev_path, t0, results, verdict, status={0: 'held', 1: 'violation', 2: 'undecided', 3: 'checker-error'}[code],
                    groups=groups, solve_s=solve_s, known=known_lines, violations=violations, replay_paths=replay_paths)
     return code
